@@ -3,16 +3,42 @@
 R1  argument roles of every geodesic call (T-ROLE): pyproj.Geod.inv takes
     (lon1, lat1, lon2, lat2), fwd takes (lon, lat, azimuth, distance); wrappers
     that forward their parameters get the derived signature and their callers
-    are checked against it.
+    are checked against it.  The instance floor counts the call sites in, or
+    reached through resolved calls from, ground_track.py and mission.py.
 R2  azimuth convention: the single Point constructor normalises with % 360 and
     every point handed out is built by it.
 R3  step(a, b) is location(a + b) / _overstep(a + b).
 R4  overstep only behind its guard; out-of-range requests raise before any
     indexing.
-R5  leg coherence: start waypoint, azimuth and distance origin of every
-    forward-geodesic call refer to the same leg.
-R6  which component of a geodesic result is used as what (azimuth = [0],
-    distance = [2]); cumulative index built from consecutive waypoint pairs.
+R5  leg coherence: in every forward-geodesic evaluation of the ground track the
+    start waypoint, the leg azimuth and the cumulative distance subtracted
+    refer to the same leg (index expressions compared as polynomials).  An
+    evaluation is a GEOD.fwd call in a GroundTrack method or in anything it
+    reaches; a helper that forwards its parameters to the call is judged at
+    its call sites, with the arguments substituted (through several levels,
+    positional or keyword).
+R6  which component of a geodesic result is used as what, by def-use and not
+    by spelling (`call[i]`, unpacking, a local bound to either): the leg
+    azimuths are component [0] and the summed leg lengths component [2] of
+    the one inverse geodesic over (waypoint i, waypoint i+1) pairs; the
+    cumulative index is their running sum starting at 0 (accumulate([0] + D),
+    accumulate(D, initial=0), [0] + accumulate(D), cumsum forms); stored
+    waypoints and leg coordinates are one sequence; the azimuth of an
+    interpolated point is component [0] of the geodesic from the returned
+    point to the waypoint that ends the leg it was interpolated on (R5's leg
+    + 1); the mission distance is component [2] between origin and
+    destination.
+R7  queries are pure: no GroundTrack method other than the constructor stores
+    to self.
+R8  the mission distance is only ever the geodesic: the memoised properties of
+    Mission (gc_distance and the two airport positions it is computed from)
+    are filled by their own functions only.  Anywhere in the program, no
+    attribute store, no store / update / setdefault / |= on the instance
+    dictionary (`x.__dict__`, `vars(x)`, or a local bound to one), no
+    setattr / object.__setattr__ may name one of them (names seen through
+    literals, single-definition locals and loops over literal tuples; a
+    computed name on an object known to be a Mission is undecided; deleting a
+    cached value is allowed).  Positive control: twelve spellings.
 """
 
 from __future__ import annotations
@@ -23,7 +49,7 @@ import copy
 from ..algebra import normal_form
 from ..astutil import first_stmt, last_stmt  # noqa: F401
 from ..astutil import (ancestors, call_name, calls_in, guards_of, norm, single_def_value, stmt_of, stores_to,
-                       walk_no_nested)
+                       tuple_def_component, walk_no_nested)
 from ..cfg import CFG
 from ..resolve import callers_of, closure
 from ..roles import GEOD_SIG, check_geod_call, expr_role, geod_calls, wrapper_signature
@@ -36,12 +62,16 @@ OTHER_PROPERTY = {'src/AEIC/missions/writable_database.py': 'C13-R1'}
 def rule_roles(ctx):
     prog = ctx.prog
     fns = prog.all_functions(src_only=(ctx.tier != 'thorough'))
+    # everything the ground track and the mission reach through resolved calls belongs to them, wherever a
+    # geodesic call has been moved to
+    reach = closure(prog, [f for f in prog.all_functions() if f.file.endswith((GT, MI))])
     if ctx.tier != 'thorough':
         fns = [f for f in fns if f.file.endswith((GT, MI)) or 'gridding' in f.file or f.file.endswith('utils/__init__.py')]
+        fns += [f for f in reach if f not in fns]
     sites = geod_calls(prog, fns)
     # module-level code (scripts, notebooks) in the thorough tier
-    ctx.floor('C15-R1', len([s for s in sites if s[0].file.endswith((GT, MI))]), 5,
-              'direct geodesic call sites in ground_track.py and mission.py')
+    ctx.floor('C15-R1', len([s for s in sites if s[0] in reach]), 5,
+              'geodesic call sites in, or reached from, ground_track.py and mission.py')
     unresolved = 0
     for fi, c, kind in sites:
         if fi.file in OTHER_PROPERTY:
@@ -245,66 +275,9 @@ def rule_track(ctx):
     ctx.ob('C15-R4', cont, 'range is [first, last] cumulative distance', ok,
            norm(r[0].value) if ok else 'range test of the track changed', nontrivial=False)
 
-    rule_legs(ctx)
+    legs_of = rule_legs(ctx)
 
-    # R6 components
-    ini = m.func('GroundTrack.__init__')
-    invs = [c for f, c, k in geod_calls(prog, [ini]) if k == 'inv']
-    ok = False
-    if len(invs) == 1:
-        a = [norm(x) for x in invs[0].args]
-        ok = len(a) == 4 and a[0].endswith('[:-1]') and a[1].endswith('[:-1]') and a[2].endswith('[1:]') and a[3].endswith('[1:]')
-        st = stmt_of(invs[0])
-        tg = [norm(x) for x in st.targets[0].elts] if isinstance(st, ast.Assign) and isinstance(st.targets[0], ast.Tuple) else []
-        ok = ok and len(tg) == 3 and tg[0] == 'self.azimuths' and tg[2] == 'distances'
-    ctx.ob('C15-R6', ini, 'legs are consecutive waypoint pairs; azimuth=[0], distance=[2]', ok,
-           norm(stmt_of(invs[0]))[:110] if ok else 'leg construction changed (pairing or result components)')
-    # the stored waypoints and the coordinates the legs are computed from are one and the same sequence
-    wps = [st for t, st, how in stores_to(ini.node) if norm(t) == 'self.waypoints']
-    srcs = {}
-    for nm in ('lons', 'lats'):
-        d = [st.value for t, st, how in stores_to(ini.node) if isinstance(t, ast.Name) and t.id == nm]
-        if len(d) == 1 and isinstance(d[0], ast.ListComp) and len(d[0].generators) == 1 and not d[0].generators[0].ifs:
-            srcs[nm] = norm(d[0].generators[0].iter)
-    if len(wps) != 1 or len(srcs) != 2:
-        ctx.undecided('C15-R6', ini, 'self.waypoints / lons / lats', 'waypoint bookkeeping of the constructor not recognised')
-    wsrc = norm(wps[0].value)
-    ok = all(s_ in (wsrc, 'self.waypoints') for s_ in srcs.values())
-    ctx.ob('C15-R6', ini, f'self.waypoints = {wsrc[:50]}; coordinates from {sorted(set(srcs.values()))}', ok,
-           'legs, cumulative index and stored waypoints describe the same list' if ok else
-           (f'the track stores `{wsrc[:60]}` but computes leg azimuths and the cumulative index from `{sorted(set(srcs.values()))[0]}`: '
-            'when the two differ (repeated fixes removed, points filtered) location() projects from the wrong waypoint and '
-            'step(a, b) is no longer location(a + b)'), line=wps[0].lineno)
-    idx = [st for t, st, how in stores_to(ini.node) if norm(t) == 'self.index']
-    ok = len(idx) == 1 and norm(idx[0].value) == 'list(itertools.accumulate([0.0] + distances))'
-    ctx.ob('C15-R6', ini, 'cumulative index = running sum of leg lengths from 0', ok,
-           norm(idx[0].value) if ok else 'cumulative waypoint index changed', nontrivial=False)
-    td = m.func('GroundTrack.total_distance')
-    r = [n for n in walk_no_nested(td.node) if isinstance(n, ast.Return)]
-    ok = len(r) == 1 and norm(r[0].value) == 'self.index[-1]'
-    ctx.ob('C15-R6', td, 'total distance is the last cumulative value', ok,
-           'self.index[-1]' if ok else 'total distance changed', nontrivial=False)
-    loc = m.func('GroundTrack.location')
-    for f, c, k in geod_calls(prog, [loc]):
-        if k == 'inv':
-            st = stmt_of(c)
-            tg = [norm(x) for x in st.targets[0].elts] if isinstance(st.targets[0], ast.Tuple) else []
-            ok = tg[:1] == ['azimuth'] and norm(c.args[0]) == 'lon' and norm(c.args[1]) == 'lat' \
-                and 'wp_after' in norm(c.args[2])
-            ctx.ob('C15-R6', loc, 'azimuth taken at the located point towards the next waypoint', ok,
-                   norm(st)[:100] if ok else 'azimuth direction or component changed', line=c.lineno)
-    mi = prog.module(MI)
-    gd = mi.func('Mission.gc_distance')
-    r = [n for n in walk_no_nested(gd.node) if isinstance(n, ast.Return)]
-    ok = len(r) == 1 and isinstance(r[0].value, ast.Subscript) and norm(r[0].value.slice) == '2'
-    ctx.ob('C15-R6', gd, 'mission distance is component [2] of the inverse geodesic', ok,
-           'distance component' if ok else 'gc_distance returns an azimuth, not the distance')
-    args = [norm(a) for c in calls_in(gd.node) for a in c.args if call_name(c).endswith('.inv')]
-    ok = len(args) == 4 and args[0].startswith('self.origin_position') and args[1].startswith('self.origin_position') \
-        and args[2].startswith('self.destination_position') and args[3].startswith('self.destination_position')
-    ctx.ob('C15-R6', gd, 'distance is between origin and destination', ok,
-           'origin pair then destination pair' if ok else 'end points of the mission distance are mixed up',
-           nontrivial=False)
+    rule_components(ctx, legs_of)
 
 
 # ----------------------------------------------------------------- R5 -----
@@ -409,6 +382,7 @@ def rule_legs(ctx):
     gt_fns = list(m.functions.values())
     reach = closure(prog, gt_fns)
     judged = []
+    legs_of: dict[str, list] = {}
 
     def fwd_slots(c: ast.Call):
         _, kw = GEOD_SIG['fwd']
@@ -420,6 +394,17 @@ def rule_legs(ctx):
                 return None
             out.append(a)
         return out
+
+    def record(fi, leg, depth):
+        """the leg an evaluation works on, in terms of the function it is written in and - when it is named by
+        that function's parameters - of every ground-track caller"""
+        legs_of.setdefault(fi.qualname, []).append(leg)
+        own = set(fi.params) - {'self', 'cls'}
+        if depth < 4 and any(isinstance(x, ast.Name) and x.id in own for x in ast.walk(leg)):
+            for caller, call in callers_of(prog, fi):
+                bound = _bind_call(fi, call) if caller.file.endswith(GT) else None
+                if bound is not None:
+                    record(caller, _resolve_locals(caller, _Subst(bound).visit(copy.deepcopy(leg))), depth + 1)
 
     def judge(fi, slots, site, via, depth):
         slots = [_resolve_locals(fi, s) for s in slots]
@@ -449,6 +434,8 @@ def rule_legs(ctx):
         named = dict(zip(SLOT_NAMES, legs))
         ok = len(set(legs)) == 1
         judged.append(fi)
+        w = slots[0].value if isinstance(slots[0], ast.Attribute) else slots[0]
+        record(fi, w.slice, 0)
         ctx.ob('C15-R5', fi, f'fwd legs {named}' + (f' via {" <- ".join(via)}' if via else ''), ok,
                'start point, azimuth and distance origin belong to one leg' if ok else
                'the forward geodesic starts at one waypoint but uses the azimuth / distance origin of another '
@@ -471,6 +458,225 @@ def rule_legs(ctx):
                 continue
         judge(fi, slots, c, [], 0)
     ctx.floor('C15-R5', len(judged), 2, 'forward geodesic evaluations of the ground track')
+    return legs_of
+
+
+# ----------------------------------------------------------------- R6 -----
+_CONVERSIONS = {'list', 'tuple', 'np.asarray', 'np.array', 'numpy.asarray', 'numpy.array', 'float'}
+
+
+def _strip_conv(e: ast.AST) -> ast.AST:
+    while isinstance(e, ast.Call) and call_name(e) in _CONVERSIONS and len(e.args) == 1 and not e.keywords:
+        e = e.args[0]
+    return e
+
+
+def _component(fi, e: ast.AST, depth: int = 0):
+    """(call, i) when e denotes element i of the tuple a call returns: `call(...)[i]`, a local bound by unpacking
+    the call, a local bound to either, or `t[i]` with t a local bound to the call"""
+    e = _strip_conv(e)
+    if depth > 4:
+        return None
+    if isinstance(e, ast.Subscript) and isinstance(e.slice, ast.Constant) and isinstance(e.slice.value, int):
+        v = e.value
+        if isinstance(v, ast.Name):
+            v = single_def_value(fi.node, v.id) or v
+        if isinstance(v, ast.Call):
+            return v, e.slice.value
+        return None
+    if isinstance(e, ast.Name):
+        td = tuple_def_component(fi.node, e.id)
+        if td is not None and isinstance(td[0], ast.Call):
+            return td
+        d = single_def_value(fi.node, e.id)
+        if d is not None:
+            return _component(fi, d, depth + 1)
+    return None
+
+
+def _zero_list(e: ast.AST) -> bool:
+    return isinstance(e, (ast.List, ast.Tuple)) and len(e.elts) == 1 and isinstance(e.elts[0], ast.Constant) \
+        and not isinstance(e.elts[0].value, bool) and e.elts[0].value == 0
+
+
+def _running_sum_from_zero(e: ast.AST):
+    """D when e evaluates to [0, D0, D0+D1, ...]: accumulate([0] + D), accumulate(D, initial=0),
+    [0] + list(accumulate(D)), np.cumsum([0] + D), np.concatenate(([0], np.cumsum(D)))"""
+    e = _strip_conv(e)
+
+    def plain_sum(c):
+        """D when c is accumulate(D) / np.cumsum(D) with the default (addition) and no start value"""
+        c = _strip_conv(c)
+        if isinstance(c, ast.Call) and call_name(c).split('.')[-1] in ('accumulate', 'cumsum') and len(c.args) == 1 \
+                and not c.keywords:
+            return c.args[0]
+        return None
+    if isinstance(e, ast.Call) and call_name(e).split('.')[-1] in ('accumulate', 'cumsum') and len(e.args) == 1:
+        kws = {k.arg: k.value for k in e.keywords}
+        a = e.args[0]
+        if not kws and isinstance(a, ast.BinOp) and isinstance(a.op, ast.Add) and _zero_list(a.left):
+            return _strip_conv(a.right)
+        if set(kws) == {'initial'} and call_name(e).split('.')[-1] == 'accumulate' \
+                and isinstance(kws['initial'], ast.Constant) and not isinstance(kws['initial'].value, bool) \
+                and kws['initial'].value == 0:
+            return _strip_conv(a)
+        return None
+    if isinstance(e, ast.BinOp) and isinstance(e.op, ast.Add) and _zero_list(e.left):
+        return plain_sum(e.right)
+    if isinstance(e, ast.Call) and call_name(e).split('.')[-1] == 'concatenate' and len(e.args) == 1 \
+            and isinstance(e.args[0], (ast.Tuple, ast.List)) and len(e.args[0].elts) == 2 and _zero_list(e.args[0].elts[0]):
+        return plain_sum(e.args[0].elts[1])
+    return None
+
+
+def _slice_kind(e: ast.AST):
+    """('head' | 'tail', base text) for seq[:-1] / seq[1:]"""
+    if not (isinstance(e, ast.Subscript) and isinstance(e.slice, ast.Slice)) or e.slice.step is not None:
+        return None
+    lo, hi = e.slice.lower, e.slice.upper
+
+    def const(x, v):
+        return isinstance(x, ast.Constant) and x.value == v and not isinstance(x.value, bool) or \
+            (v < 0 and isinstance(x, ast.UnaryOp) and isinstance(x.op, ast.USub) and isinstance(x.operand, ast.Constant)
+             and x.operand.value == -v)
+    if (lo is None or const(lo, 0)) and hi is not None and const(hi, -1):
+        return 'head', norm(e.value)
+    if lo is not None and const(lo, 1) and (hi is None or (isinstance(hi, ast.Constant) and hi.value is None)):
+        return 'tail', norm(e.value)
+    return None
+
+
+def rule_components(ctx, legs_of):
+    prog = ctx.prog
+    m = prog.module(GT)
+    ini = m.func('GroundTrack.__init__')
+    invs = [c for f, c, k in geod_calls(prog, [ini]) if k == 'inv']
+    coord_names = []
+    ok, why = False, 'leg construction changed: not one inverse-geodesic call over the waypoint sequence'
+    if len(invs) == 1 and len(invs[0].args) == 4:
+        inv = invs[0]
+        kinds = [_slice_kind(a) for a in inv.args]          # as written: the coordinate lists keep their names
+        ok = all(k is not None for k in kinds) and [k[0] for k in kinds] == ['head', 'head', 'tail', 'tail'] \
+            and kinds[0][1] == kinds[2][1] and kinds[1][1] == kinds[3][1] and kinds[0][1] != kinds[1][1]
+        why = 'legs are not (waypoint i, waypoint i+1) pairs over one longitude and one latitude sequence'
+        if ok:
+            coord_names = [kinds[0][1], kinds[1][1]]
+            az = [st for t, st, how in stores_to(ini.node) if norm(t) == 'self.azimuths']
+            ok = len(az) == 1
+            why = 'self.azimuths is not stored exactly once'
+            if ok:
+                st = az[0]
+                if isinstance(st, ast.Assign) and st.value is inv and isinstance(st.targets[0], (ast.Tuple, ast.List)):
+                    pos = [i for i, x in enumerate(st.targets[0].elts) if norm(x) == 'self.azimuths']
+                    ok = pos == [0]
+                else:
+                    comp = _component(ini, st.value)
+                    if comp is None or comp[0] is not inv:
+                        ctx.undecided('C15-R6', ini, norm(st)[:80], 'cannot tell which geodesic result the leg azimuths are')
+                    ok = comp[1] == 0
+                why = 'the leg azimuths are not the forward azimuths (component [0]) of the inverse geodesic'
+    ctx.ob('C15-R6', ini, 'legs are consecutive waypoint pairs; azimuth=[0]', ok,
+           norm(stmt_of(invs[0]))[:110] if ok else why)
+    # the stored waypoints and the coordinates the legs are computed from are one and the same sequence
+    wps = [st for t, st, how in stores_to(ini.node) if norm(t) == 'self.waypoints']
+    srcs = {}
+    for nm in coord_names:
+        d = [st.value for t, st, how in stores_to(ini.node) if isinstance(t, ast.Name) and t.id == nm]
+        if len(d) == 1 and isinstance(d[0], (ast.ListComp, ast.GeneratorExp)) and len(d[0].generators) == 1 \
+                and not d[0].generators[0].ifs:
+            srcs[nm] = norm(d[0].generators[0].iter)
+        elif len(d) == 1 and isinstance(_strip_conv(d[0]), (ast.ListComp, ast.GeneratorExp)):
+            g = _strip_conv(d[0])
+            if len(g.generators) == 1 and not g.generators[0].ifs:
+                srcs[nm] = norm(g.generators[0].iter)
+    if len(wps) != 1 or len(srcs) != 2:
+        ctx.undecided('C15-R6', ini, 'self.waypoints / coordinate lists', 'waypoint bookkeeping of the constructor not recognised')
+    wsrc = norm(wps[0].value)
+    ok = all(s_ in (wsrc, 'self.waypoints') for s_ in srcs.values())
+    ctx.ob('C15-R6', ini, f'self.waypoints = {wsrc[:50]}; coordinates from {sorted(set(srcs.values()))}', ok,
+           'legs, cumulative index and stored waypoints describe the same list' if ok else
+           (f'the track stores `{wsrc[:60]}` but computes leg azimuths and the cumulative index from `{sorted(set(srcs.values()))[0]}`: '
+            'when the two differ (repeated fixes removed, points filtered) location() projects from the wrong waypoint and '
+            'step(a, b) is no longer location(a + b)'), line=wps[0].lineno)
+    idx = [st for t, st, how in stores_to(ini.node) if norm(t) == 'self.index']
+    ok, why = len(idx) == 1 and len(invs) == 1, 'cumulative waypoint index is not stored exactly once'
+    if ok:
+        D = _running_sum_from_zero(idx[0].value)
+        bare = _strip_conv(idx[0].value)
+        if D is None and isinstance(bare, ast.Call) and call_name(bare).split('.')[-1] in ('accumulate', 'cumsum') \
+                and len(bare.args) == 1 and not bare.keywords:
+            D, ok, why = None, False, ('the cumulative index does not start at 0: entry i is then the distance to '
+                                       'waypoint i + 1 and every leg is interpolated from the wrong origin')
+        elif D is None:
+            ctx.undecided('C15-R6', ini, norm(idx[0])[:90], 'form of the cumulative index not recognised')
+        if D is not None:
+            comp = _component(ini, D)
+            ok = comp is not None and comp[0] is invs[0] and comp[1] == 2
+            why = 'the cumulative index does not sum the leg lengths (component [2] of the inverse geodesic)'
+    ctx.ob('C15-R6', ini, 'cumulative index = running sum of leg lengths from 0', ok,
+           norm(idx[0].value) if ok else why)
+    td = m.func('GroundTrack.total_distance')
+    r = [n for n in walk_no_nested(td.node) if isinstance(n, ast.Return)]
+    ok = len(r) == 1 and r[0].value is not None and norm(_resolve_locals(td, r[0].value)) in (
+        'self.index[-1]', 'self.index[len(self.index) - 1]')
+    ctx.ob('C15-R6', td, 'total distance is the last cumulative value', ok,
+           'self.index[-1]' if ok else 'total distance changed', nontrivial=False)
+    # the azimuth reported for an interpolated point is measured at that point, towards the waypoint that ends the leg
+    loc = m.func('GroundTrack.location')
+    for f, c, k in geod_calls(prog, [loc]):
+        if k != 'inv' or len(c.args) < 4:
+            continue
+        a = [_resolve_locals(loc, x) for x in c.args[:4]]
+        ends = [x.value if isinstance(x, ast.Attribute) else x for x in a[2:]]
+        ok = all(isinstance(x, ast.Subscript) and norm(x.value) == 'self.waypoints' for x in ends) \
+            and norm(ends[0]) == norm(ends[1])
+        why = 'the azimuth is not measured towards one waypoint of the track'
+        if ok:
+            legs = legs_of.get(loc.qualname, [])
+            if not legs:
+                ctx.undecided('C15-R6', loc, norm(stmt_of(c))[:80], 'the leg this point is interpolated on is not known')
+            ok = all(_idx_key(ends[0].slice) == _idx_key(l, 1) for l in legs)
+            why = (f'the azimuth is measured towards waypoint [{norm(ends[0].slice)}], which is not the end of the leg '
+                   'the point was interpolated on')
+        if ok:
+            # component [0] of this geodesic is what the returned point carries, and it is measured at that point
+            used = []
+            for r in walk_no_nested(loc.node):
+                if not (isinstance(r, ast.Return) and isinstance(r.value, ast.Call)):
+                    continue
+                az = r.value.args[1] if len(r.value.args) >= 2 else next(
+                    (kw.value for kw in r.value.keywords if kw.arg == 'azimuth'), None)
+                comp = _component(loc, az) if az is not None else None
+                if comp is not None and comp[0] is c:
+                    used.append((r, comp[1]))
+            if not used:
+                ctx.undecided('C15-R6', loc, norm(stmt_of(c))[:80], 'cannot tell where the result of this geodesic goes')
+            ok = all(i == 0 for _, i in used)
+            why = 'the returned point carries the back azimuth / distance of this geodesic, not its forward azimuth'
+            for r, _ in used:
+                pts = [x for x in ast.walk(_resolve_locals(loc, r.value.args[0])) if isinstance(x, ast.Call)
+                       and call_name(x).split('.')[-1] == 'Location' and len(x.args) >= 2] if r.value.args else []
+                if ok and pts and not any(norm(_resolve_locals(loc, p.args[0])) == norm(a[0]) and
+                                          norm(_resolve_locals(loc, p.args[1])) == norm(a[1]) for p in pts):
+                    ok, why = False, 'the azimuth is measured at a different point from the one returned'
+        ctx.ob('C15-R6', loc, 'azimuth taken at the located point towards the next waypoint', ok,
+               norm(stmt_of(c))[:100] if ok else why, line=c.lineno)
+    mi = prog.module(MI)
+    gd = mi.func('Mission.gc_distance')
+    r = [n for n in walk_no_nested(gd.node) if isinstance(n, ast.Return)]
+    ginv = [c for f, c, k in geod_calls(prog, [gd]) if k == 'inv']
+    comp = _component(gd, r[0].value) if len(r) == 1 and r[0].value is not None else None
+    if comp is None or len(ginv) != 1 or comp[0] is not ginv[0]:
+        ctx.undecided('C15-R6', gd, norm(r[0])[:80] if r else 'return', 'cannot tell which geodesic result the mission distance is')
+    ok = comp[1] == 2
+    ctx.ob('C15-R6', gd, 'mission distance is component [2] of the inverse geodesic', ok,
+           'distance component' if ok else f'gc_distance returns component [{comp[1]}] of the inverse geodesic (an azimuth), not the distance')
+    args = [norm(_resolve_locals(gd, a)) for a in ginv[0].args]
+    ok = len(args) == 4 and args[0].startswith('self.origin_position') and args[1].startswith('self.origin_position') \
+        and args[2].startswith('self.destination_position') and args[3].startswith('self.destination_position')
+    ctx.ob('C15-R6', gd, 'distance is between origin and destination', ok,
+           'origin pair then destination pair' if ok else 'end points of the mission distance are mixed up',
+           nontrivial=False)
 
 
 # ----------------------------------------------------------------- R8 -----
